@@ -64,7 +64,8 @@ func coverSentences(m *ref.Model, l int) [][]string {
 }
 
 func runC10(c *Ctx) {
-	c.res.Rule = "CheckMnemonic on pairs of strings with equal CPython-NFKD: (a) every list word of every language in each alternative spelling (NFC, NFD, NFKC, full-width, every single-code-point compatibility/precomposed replacement of any substring; quick: a 1/16 slice of the latter) placed inside a reference-valid sentence (quick: one word count per word, thorough: all five) and inside a checksum-defective sentence; (b) whole 24-word cover sentences (every list word) and sentences of the longest/shortest words at every count, respelled in NFC/NFD/NFKC/full-width; (c) valid sentences joined by every code point whose NFKD is U+0020; (d) all strings of Sigma^<=3 in their four normal forms x 3 languages. Oracle: identical verdict class for both members of a pair, and reference-valid sentences accepted in every spelling. distinct_nontrivial = distinct non-canonical spellings (strings differing from their canonical partner)"
+	c.res.Rule = "CheckMnemonic on pairs of strings with equal CPython-NFKD: (a) every list word of every language in each alternative spelling (NFC, NFD, NFKC, full-width, every single-code-point compatibility/precomposed replacement of any substring; quick: a 1/16 slice of the latter) placed inside a reference-valid sentence (quick: one word count per word, thorough: all five) and inside a checksum-defective sentence; (b) whole 24-word cover sentences (every list word) and sentences of the longest/shortest words at every count, respelled in NFC/NFD/NFKC/full-width; (c) valid sentences joined by every code point whose NFKD is U+0020; (d) all strings of Sigma^<=3 in their four normal forms x 3 languages. Oracle: identical verdict class for both members of a pair, and reference-valid sentences accepted in every spelling. distinct_nontrivial = distinct non-canonical spellings (strings differing from their canonical partner) Cold-start phase: for each of the ten languages a fresh child process whose first library call is an encoding (resp. a validation) in that language, followed by all ten languages, compared with the reference (what depends on which language - or the zero value of Language - came first)."
+	defer c.coldStartPhase("equiv", "canon")
 	c.Assume("CPython unicodedata (Unicode 14) decides which strings have equal NFKD forms; only assigned code points are used")
 	ds := newDistinctSet()
 	type job struct {
